@@ -173,9 +173,12 @@ var namespaceReplacer = strings.NewReplacer("/", ".", "-", "_")
 func (b *schemaBuilder) schemaForArray(typ reflect.Type) (Schema, error) {
 	elem := typ.Elem()
 	if elem.Kind() == reflect.Uint8 {
-		return Schema{
-			Type: "bytes",
-		}, nil
+		// A slice of bytes, unless the element type has a schema of its own.
+		if _, registered := isInSchemaRegistry(elem); !registered {
+			return Schema{
+				Type: "bytes",
+			}, nil
+		}
 	}
 
 	s, err := b.schemaForType(elem)
